@@ -18,29 +18,29 @@ const rootPath = "github.com/aquilax/hranoprovod-cli/v3"
 const cmdPath = "github.com/aquilax/hranoprovod-cli/cmd/hranoprovod-cli/v3"
 
 type Prog struct {
-	repo     string
-	prog     *ssa.Program
-	pkgs     []*packages.Package
-	allPkgs  map[string]*packages.Package
-	repoPkgs map[*types.Package]bool
+	repo      string
+	prog      *ssa.Program
+	pkgs      []*packages.Package
+	allPkgs   map[string]*packages.Package
+	repoPkgs  map[*types.Package]bool
 	pkgByName map[string]*types.Package // short name -> repo package
-	fns      map[string]*ssa.Function   // key -> function
-	fnKeys   map[*ssa.Function]string
-	repoFns  []*ssa.Function
+	fns       map[string]*ssa.Function  // key -> function
+	fnKeys    map[*ssa.Function]string
+	repoFns   []*ssa.Function
 
-	specs    map[string][]*FuncSpec // key -> contract variants
-	specFuns map[string]*SpecFun
-	lemmas   map[string]*Lemma
-	lemmaOrder []string
-	ghosts   map[string]*GhostVar
-	ghostOrder []string
-	axioms   []*Axiom
-	typeCons map[string]*TypeContract
-	methods  map[string]*IfaceMethodSpec // "Iface.Method"
+	specs         map[string][]*FuncSpec // key -> contract variants
+	specFuns      map[string]*SpecFun
+	lemmas        map[string]*Lemma
+	lemmaOrder    []string
+	ghosts        map[string]*GhostVar
+	ghostOrder    []string
+	axioms        []*Axiom
+	typeCons      map[string]*TypeContract
+	methods       map[string]*IfaceMethodSpec // "Iface.Method"
 	sortsDeclared []string
-	specFiles []string
-	specFunOrder []string
-	implCache map[string][]implSpec
+	specFiles     []string
+	specFunOrder  []string
+	implCache     map[string][]implSpec
 }
 
 func isRepoPath(p string) bool {
@@ -197,6 +197,9 @@ func (P *Prog) mergeVariants() {
 			}
 			if s.CallUses == nil {
 				s.CallUses = base.CallUses
+			}
+			if s.ParamCons == nil {
+				s.ParamCons = base.ParamCons
 			}
 			for _, c := range s.Ensures {
 				cp := *c
